@@ -762,6 +762,20 @@ def process(template_path, repo, meta, twin=None):
             sources[path] = Source(path)
         S = sources[path]
         if m.group(1) == "struct":
+            tm = [x for x in re.finditer(r"^(?:pub(?:\([^)]*\))?\s+)?struct\s+%s\s*(<[^>]*>)?\s*\(([^;]*)\);" % re.escape(fields[1]), S.src, re.M)
+                  if S.mask[x.start()]]
+            if len(tm) == 1:
+                # tuple struct: `pub struct Name<'a>(pub T);` (visibility dropped, R11)
+                x = tm[0]
+                raw = S.src[max(0, S.src.rfind("\n\n", 0, x.start())):x.start()]
+                keep = [d for d in ("Clone", "Copy") if re.search(r"#\[derive\([^\]]*\b%s\b" % d, raw)]
+                if keep:
+                    out.append("#[derive(%s)]" % ", ".join(keep))
+                out.append("struct %s%s(%s);" % (fields[1], x.group(1) or "", x.group(2)))
+                meta["items"].append({"kind": "struct", "file": rel, "name": fields[1], "span": [x.start(), x.end()],
+                                      "sha256": hashlib.sha256(x.group(0).encode()).hexdigest()})
+                i += 1
+                continue
             hs, o, c = S.find_struct(fields[1])
             raw = strip_noncode(S.src, S.mask, hs, o)
             hdr = strip_attrs(raw)
